@@ -145,4 +145,26 @@ theorem LInvD_init (cfgA cfgB : Cfg) : LInvD (linkInit cfgA cfgB) :=
 theorem safe_of_LInvD {l : LSt} (h : LInvD l) : safe l.sentA l.sentB l.dlvA l.dlvB = true := by
   unfold safe; rw [h.da, h.db]; simp [isPrefix]
 
+/-! ### an application message with an empty payload value -/
+
+theorem bsName_ne_empty (n : Nat) : bsName n ≠ "" := by
+  unfold bsName
+  split <;> decide
+
+theorem validate_empty_payload (cfg : Cfg) (n : Int) (hs : cfg.sender ≠ "") (ht : cfg.target ≠ "") :
+    validate (toIn cfg (appMsg n "")) = some (noValue 9000) := by
+  have h1 : (bsName cfg.bs).isEmpty = false := (isEmpty_false_iff _).2 (bsName_ne_empty _)
+  have h2 : cfg.sender.isEmpty = false := (isEmpty_false_iff _).2 hs
+  have h3 : cfg.target.isEmpty = false := (isEmpty_false_iff _).2 ht
+  have h4 : (toString n).isEmpty = false := (isEmpty_false_iff _).2 (toString_int_ne_empty n)
+  have h5 : ("D" : String).isEmpty = false := by decide
+  have h6 : ("@0" : String).isEmpty = false := by decide
+  have h7 : ("" : String).isEmpty = true := by decide
+  have hd : dupF (appMsg n "") = [] := by simp [dupF, appMsg, Qfx.Link.get?_cons, Qfx.Link.get?_nil]
+  have ho : origF (appMsg n "") = [] := by simp [origF, appMsg, Fields.has]
+  have hr : restF (appMsg n "") = [(9000, "")] := by simp [restF, appMsg]
+  unfold validate
+  rw [toIn_f, hd, ho, hr]
+  simp only [List.nil_append, List.cons_append, List.find?_cons, h1, h2, h3, h4, h5, h6, h7, appMsg]
+
 end Qfx.Link
